@@ -40,12 +40,15 @@ pub fn emit(tier: &str, seed: u64, path: &str) -> Report {
         let mut lens: Vec<usize> = if p.is_local() { (0..=130).collect() } else { (0..=130).step_by(if p == P::V2P || p == P::V4P { 3 } else { 9 }).collect() };
         if p.is_local() {
             lens.extend_from_slice(gens::BOUNDARY_LENGTHS);
-            lens.extend_from_slice(&[65535, 65536]);
+            lens.extend_from_slice(&[8191, 8192, 8193, 16384, 32768, 65535, 65536]);
+            for _ in 0..6 {
+                lens.push(4098 + rng.below(61000));
+            }
             if thorough {
                 lens.extend_from_slice(&[65537, 131071, 262144]);
             }
         } else {
-            lens.extend_from_slice(&[255, 256, 257, 1024, 4096]);
+            lens.extend_from_slice(&[255, 256, 257, 1024, 4095, 4096, 4097, 8192, 65536]);
         }
         let extra = match (p.is_local(), thorough) {
             (true, false) => 150,
